@@ -132,6 +132,12 @@ func Random(r *rand.Rand, local bool) Scn {
 					j := r.Intn(len(s.Sets))
 					so.Owners = []verifphase.Ref{s.setRef(j, true)}
 					so.Rev = fmt.Sprint(j + 1)
+					// a revision that controls something has been reconciled before:
+					// it carries the finalizer and has reported its revision
+					s.Sets[j].FinCached = true
+					if s.Sets[j].Revision == 0 {
+						s.Sets[j].Revision = int64(j + 1)
+					}
 					if r.Intn(3) == 0 && j != i {
 						so.Owners = append(so.Owners, s.setRef(i, false))
 					}
